@@ -373,6 +373,31 @@ def lazy_objects(ctx, case):
     merged = data_merge(*parts)
     same(ctx, {k: merged[k] for k in ("t", "k2")}, g(eager), "nested_lazy_iter_equals_eager")
     ctx.check("weight" in merged and np.array_equal(np.asarray(merged["weight"]), np.arange(n) * 3.0), "nested_lazy_iter_extra", "weight of the outer lazy object lost or changed")
+    # merged lazy samples (data + bg) with an on-disk tf.data cache: each
+    # sample and the merged one must keep their own content at the same batch
+    import shutil
+
+    n2 = max(1, n // 2 + 1)
+    xa = {"a": np.arange(n, dtype=float), "b": {"q": np.arange(2 * n, dtype=float).reshape(n, 2)}}
+    xb = {"a": 100.0 + np.arange(n2, dtype=float), "b": {"q": 50.0 + np.arange(2 * n2, dtype=float).reshape(n2, 2)}}
+    cache_dir = "lazy_cache_%d_%d/" % (n, b)
+    try:
+        la = LazyCall(HeavyCall(f), xa)
+        lb = LazyCall(HeavyCall(f), xb)
+        la.set_cached_file(cache_dir, "data")
+        lb.set_cached_file(cache_dir, "bg")
+        pa = data_merge(*[data_map(p, np.asarray) for p in la.batch(b)])
+        same(ctx, {k: pa[k] for k in ("s", "k")}, f(xa), "cached_lazy_first_sample")
+        lm = data_merge(la, lb)
+        ctx.check(isinstance(lm, LazyCall), "lazy_merge_type", str(type(lm)))
+        ctx.check(int(data_shape(lm)) == n + n2, "lazy_merge_len", "%s" % data_shape(lm))
+        pm = data_merge(*[data_map(p, np.asarray) for p in lm.batch(b)])
+        want_m = f({"a": np.concatenate([xa["a"], xb["a"]]), "b": {"q": np.concatenate([xa["b"]["q"], xb["b"]["q"]])}})
+        same(ctx, {k: pm[k] for k in ("s", "k")}, want_m, "cached_lazy_merged_sample")
+        pb = data_merge(*[data_map(p, np.asarray) for p in lb.batch(b)])
+        same(ctx, {k: pb[k] for k in ("s", "k")}, f(xb), "cached_lazy_second_sample")
+    finally:
+        shutil.rmtree(cache_dir, ignore_errors=True)
     fn = "lf_%d.npy" % n
     np.save(fn, np.arange(3 * n, dtype=float).reshape(n, 3))
     try:
